@@ -332,8 +332,9 @@ def nonmonotone_flags(f: FuncInfo):
 _GROW = ("append", "extend", "add", "update", "insert", "setdefault")
 
 
-def leaked_iteration_collections(f: FuncInfo):
-    """[(name, loop, store stmt)]"""
+def leaked_iteration_collections(f: FuncInfo, calls: bool = False):
+    """[(name, loop, store stmt)] - with calls=True also [(name, loop, call)] where the collection is handed to a call once per
+    iteration (a writer called per shard with a dict that still holds the entries of the shards before)."""
     out = []
     for lp in (n for n in own_nodes(f.node) if isinstance(n, (ast.For, ast.While))):
         body_nodes = [x for st in lp.body for x in ast.walk(st)]
@@ -352,6 +353,16 @@ def leaked_iteration_collections(f: FuncInfo):
             continue
         created_inside = {t.id for x in body_nodes if isinstance(x, (ast.Assign, ast.AnnAssign)) and getattr(x, "value", None) is not None
                           for t in (x.targets if isinstance(x, ast.Assign) else [x.target]) if isinstance(t, ast.Name)}
+        if calls:
+            for x in body_nodes:
+                if isinstance(x, ast.Call) and directly_in(x) and not (isinstance(x.func, ast.Attribute) and isinstance(x.func.value, ast.Name) and x.func.value.id in grown):
+                    for a_ in list(x.args) + [k.value for k in x.keywords]:
+                        if isinstance(a_, ast.Name) and a_.id in grown and a_.id not in created_inside and dotted_of(x.func) not in ("len", "print", "isinstance", "id") \
+                                and not (dotted_of(x.func) or "").startswith("logger."):
+                            if any(isinstance(b, (ast.Assign, ast.AnnAssign)) and getattr(b, "value", None) is not None and any(
+                                    isinstance(tt, ast.Name) and tt.id == a_.id for tt in (b.targets if isinstance(b, ast.Assign) else [b.target]))
+                                    and not any(b is y for y in body_nodes) for b in own_nodes(f.node)):
+                                out.append((a_.id, lp, x))
         for x in body_nodes:
             if not (isinstance(x, ast.Assign) and isinstance(x.targets[0], (ast.Attribute, ast.Subscript)) and directly_in(x)):
                 continue
@@ -1075,3 +1086,121 @@ def shared_mutable_arguments(repo, typer, ef, modules):
                         if any(tag == f"p{pi}" for tag, _ in s.mods):
                             out.append((f, c, arg, what, g))
     return out, n_args
+
+
+# ---------------------------------------------------------------------------------------------------------------------- S12
+def sized_state_classes(repo) -> set[str]:
+    """Names of package classes that define __len__ / __bool__ (or inherit it from a package class) and carry state besides
+    their elements (more than one slot / field): an *empty* instance is a value, not an absence - Graph, Function, GraphView, Shape."""
+    out = set()
+    for m in repo.pkg_modules():
+        for c in m.classes.values():
+            sized = False
+            for k in repo.mro(c):
+                if hasattr(k, "methods") and not getattr(k, "external", False) and ("__len__" in k.methods or "__bool__" in k.methods):
+                    sized = True
+            if sized and (c.slots is None or len(c.slots) > 1):
+                out.add(c.name)
+    return out
+
+
+def sized_payload_truth_tests(repo, typer, f: FuncInfo):
+    """Shared rule S12: [(test node, tested expression, source, class)] for truthiness tests of an expression whose declared type is
+    (or may be, for the `Any`-typed value of an attribute) an instance of a sized package class with further state."""
+    import re
+
+    sized = sized_state_classes(repo)
+    out, seen = [], set()
+
+    def tested(t):
+        while isinstance(t, ast.UnaryOp) and isinstance(t.op, ast.Not):
+            t = t.operand
+        if isinstance(t, ast.BoolOp):
+            for v in t.values:
+                yield from tested(v)
+        elif isinstance(t, (ast.Name, ast.Attribute)):
+            yield t
+
+    for n in own_nodes(f.node):
+        tests = []
+        if isinstance(n, (ast.If, ast.While, ast.IfExp)):
+            tests = list(tested(n.test))
+        elif isinstance(n, ast.BoolOp) and not isinstance(getattr(n, "_parent", None), (ast.If, ast.While, ast.IfExp, ast.BoolOp, ast.UnaryOp)):
+            tests = [v for v in n.values[:-1] if isinstance(v, (ast.Name, ast.Attribute))]
+        elif isinstance(n, ast.comprehension):
+            tests = [x for c in n.ifs for x in tested(c)]
+        for t in tests:
+            if id(t) in seen:
+                continue
+            seen.add(id(t))
+            for ann, src in _annotation_sources(repo, typer, f, t):
+                txt = norm(ann)
+                f._s12_examined = getattr(f, "_s12_examined", 0) + 1
+                names = set(re.findall(r"[A-Za-z_][A-Za-z0-9_]*", txt))
+                hit = sorted((names & sized) - {"MetadataStore", "DoublyLinkedSet"})  # plain containers: empty means nothing to transfer
+                if hit:
+                    out.append((n, t, src, hit[0]))
+                    break
+                if txt == "Any" and src.split(".")[-1] == "value" and ("Attr" in src):
+                    out.append((n, t, src, "Any (the value of a GRAPH attribute is a Graph)"))
+                    break
+    return out
+
+
+# ---------------------------------------------------------------------------------------------------------------------- S13
+_CONSUMERS = {"tuple", "list", "set", "frozenset", "sorted", "dict", "enumerate", "zip", "reversed", "any", "all", "sum", "min", "max", "map", "filter", "iter"}
+
+
+def iterable_consumed_twice(f: FuncInfo):
+    """Shared rule S13: [(parameter, first consumption, second consumption)] - a parameter that may be a one-shot iterable (its
+    annotation mentions Iterable / Iterator, or it has none) is iterated at two points with the second reachable from the first
+    and no rebinding of the parameter to a materialised copy (`p = tuple(p)`) in between: for a generator argument the second
+    pass sees nothing, so a validation loop after `frozenset(nodes)` validates no element at all."""
+    from .cfg import CFG
+
+    out = []
+    a = getattr(f.node, "args", None)
+    if a is None:
+        return out
+    params = []
+    for x in a.posonlyargs + a.args + a.kwonlyargs:
+        if x.arg in ("self", "cls"):
+            continue
+        ann = norm(x.annotation) if x.annotation is not None else ""
+        if "Iterable" in ann or "Iterator" in ann:
+            params.append(x.arg)
+    if not params:
+        return out
+    cfg = CFG(f.node)
+    for p in params:
+        cons, rebinds = [], []
+        for n in cfg.nodes:
+            for e in n.exprs():
+                if isinstance(e, (ast.FunctionDef, ast.AsyncFunctionDef, ast.ClassDef)):
+                    continue
+                if n.kind == "iter" and isinstance(e, ast.Name) and e.id == p:
+                    cons.append((n, e))
+                    continue
+                if isinstance(e, ast.Assign) and any(isinstance(t, ast.Name) and t.id == p for t in e.targets):
+                    rebinds.append(n)
+                for x in ast.walk(e):
+                    if isinstance(x, ast.Call) and dotted_of(x.func) in _CONSUMERS and any(isinstance(y, ast.Name) and y.id == p for y in x.args):
+                        cons.append((n, x))
+                    elif isinstance(x, ast.comprehension) and isinstance(x.iter, ast.Name) and x.iter.id == p:
+                        cons.append((n, x.iter))
+                    elif isinstance(x, ast.Starred) and isinstance(x.value, ast.Name) and x.value.id == p:
+                        cons.append((n, x))
+        rb = {n.id for n in rebinds}
+        for i, (n1, e1) in enumerate(cons):
+            for n2, e2 in cons[i + 1 :] + cons[:i]:
+                if n1.id == n2.id and e1 is e2:
+                    continue
+                if n1.id in rb:
+                    continue  # `p = tuple(p)`: the consumption rebinds p to the materialised copy
+                if n1.id != n2.id and cfg.path_exists_avoiding(n1, {n2.id}, rb, exc=False):
+                    out.append((p, e1, e2))
+                    break
+            else:
+                continue
+            break
+    return out
